@@ -37,7 +37,7 @@ def unhex(h):
     return b'' if h == '-' else bytes.fromhex(h)
 
 
-OUT_OPS = ('parse', 'str', 'rt', 'vdump', 'ent', 'parse2', 'pinto', 'rtinto', 'sparse')
+OUT_OPS = ('parse', 'str', 'rt', 'vdump', 'ent', 'parse2', 'pinto', 'rtinto', 'sparse', 'fload', 'fmiss', 'fsave', 'fsl')
 
 
 # ---- document generator -----------------------------------------------------------------------
@@ -290,6 +290,29 @@ def variant_history(r, n):
     return ops
 
 
+def held_history(r, n):
+    """handle histories with a reference obtained from toElement() and kept: `vhold i` ... `vwriteheld nm`.  Between the
+    two, anything may happen to the other slots (also copies of slot i: then the write is seen by the copies - the spec is
+    silent, the model must agree with the code); an op that targets slot i ends the use of the reference."""
+    base = [l for l in variant_history(r, n) if l != 'vdump']
+    names = [b'p', b'q', b'rr', b's9']
+    out, holding = [], False
+    for l in base:
+        k = r.random()
+        if k < 0.22:
+            out.append('vhold %d' % r.randrange(4))
+            holding = True
+        elif k < 0.50 and holding:
+            out.append('vwriteheld ' + H(r.choice(names)))
+            out.append('vdump')
+        out.append(l)
+        if r.random() < 0.25:
+            out.append('vdump')
+    out.append('vwriteheld ' + H(r.choice(names)))
+    out.append('vdump')
+    return out
+
+
 class C16(Check):
     id = 'C16'
     comp = 'Xml'
@@ -316,7 +339,11 @@ class C16(Check):
     def judge(self, cases, impl_obs, spec_obs):
         fails = Check.judge(self, cases, impl_obs, spec_obs)
         # one report per kind of failure of the reuse ops: a constant prefix of >= 80 characters, the variable part behind it
-        WHY = {'parse2': 'parse2: one Parser object used for two texts (flag 1: also one target Element) does not answer like a fresh Parser with a fresh Element '
+        WHY = {'fload': 'fload: Xml::load / Xml::Parser::load of a file does not answer like parse on the bytes of the file '
+                        '(first field 1 = same answer as parse; then the answer): ',
+               'fmiss': 'fmiss: load of a file that does not exist must return false and leave the target Element as it was (failure as reported | target afterwards): ',
+               'fsl': 'fsl: Xml::save then Xml::Parser::load of the same file does not give back the same names, attributes, text and nesting: ',
+               'parse2': 'parse2: one Parser object used for two texts (flag 1: also one target Element) does not answer like a fresh Parser with a fresh Element '
                          '(first field 1 = same answers; then the two answers): ',
                'pinto': 'pinto: parse into an Element that already holds a name, attributes or content does not answer like parse into a fresh Element '
                         '(first field 1 = same answer; then the answer): ',
@@ -362,6 +389,13 @@ class C16(Check):
                     u = secs[1].split(' ') if len(secs) > 1 else []
                     if u and u[0] == 'err':
                         found.append((unhex(a[1]), u[1], u[2]))
+                elif a[0] == 'fload' and len(t) > 5 and t[3] == 'err':
+                    found.append((unhex(a[2]), t[4], t[5]))
+                elif a[0] == 'fsl' and len(t) > 1 and t[1] == 'err' and last_str is not None:
+                    found.append((last_str, t[2], t[3]))
+                elif a[0] == 'fload' and len(t) > 4 and t[3] == 'serr':
+                    m = re.match(r'Syntax error at line (-?\d+), column (-?\d+): ', unhex(t[4]).decode('latin-1'))
+                    found.append((unhex(a[2]), m.group(1), m.group(2)) if m else (unhex(a[2]), '0', '0'))
                 elif a[0] == 'sparse' and t[0] == 'serr':
                     m = re.match(r'Syntax error at line (-?\d+), column (-?\d+): ', unhex(t[1]).decode('latin-1'))
                     found.append((unhex(a[2]), m.group(1), m.group(2)) if m else (unhex(a[2]), '0', '0'))
@@ -382,8 +416,10 @@ class C16(Check):
         kinds = {l.split(' ')[0] for l in case}
         if 'ent' in kinds:
             return any(x.startswith('ent ') and not x.startswith('ent err') for x in obs)
-        if kinds & {'parse2', 'pinto', 'sparse'}:
+        if kinds & {'parse2', 'pinto', 'sparse', 'fload'}:
             return any(len(l) >= 24 for l in case)
+        if kinds & {'fmiss', 'fsave', 'fsl'}:
+            return sum(1 for l in case if l.split(' ')[0] in ('open', 'attr', 'text')) >= 2
         if 'rtinto' in kinds:
             return sum(1 for l in case if l.split(' ')[0] in ('open', 'attr', 'text')) >= 2
         if 'parse' in kinds:
@@ -393,7 +429,7 @@ class C16(Check):
             return sum(1 for l in case if l.split(' ')[0] in ('open', 'attr', 'text')) >= 3
         if 'vdump' in kinds:
             return (any(l.startswith(('vcopy', 'vassign', 'velcopy', 'vchild', 'vsub ')) for l in case)
-                    and any(l.startswith(('vname', 'vattr', 'vsubmut', 'vsettext', 'vchild')) for l in case))
+                    and any(l.startswith(('vname', 'vattr', 'vsubmut', 'vsettext', 'vchild', 'vwriteheld')) for l in case))
         return False
 
     # -- generators ---------------------------------------------------------------------------
@@ -492,6 +528,26 @@ class C16(Check):
         out.append(Stream('handles_directed', cases, exhaustive=True,
                           note='every combination of {element, text, null, element with element child, element with text child} x '
                                '{unshared, copied once/twice, nested in another element, element copy, content item copied out} x 15 writes'))
+
+        # 9b. a reference obtained from toElement() and kept by the caller (audit finding 3)
+        cases = []
+        for a in mk:
+            for b in share:
+                # reference obtained AFTER the sharing: toElement() detaches, the write is private (spec judges)
+                cases.append(a + b + ['vhold 0', 'vdump', 'vwriteheld 7a', 'vdump', 'vname 1 71', 'vwriteheld 79', 'vdump', 'vdel 0', 'vdump'])
+                # reference obtained BEFORE the sharing: the write is seen by the sharers (spec silent, model = code)
+                cases.append(a + ['vhold 0'] + b + ['vdump', 'vwriteheld 7a', 'vdump', 'vname 1 71', 'vwriteheld 79', 'vdump', 'vdel 1', 'vwriteheld 78', 'vdump'])
+                for c in act:
+                    # the reference ends when the slot is targeted; writes to other slots in between
+                    cases.append(a + ['vhold 0'] + b + c + ['vwriteheld 7a', 'vdump'])
+        cases.append(['velem 0 61', 'vhold 0', 'vcopy 1 0', 'vwriteheld 62', 'vdump'])        # the witness of xml_copies_independent_refuted_with_held_reference
+        cases.append(['velem 0 61', 'vhold 0', 'vwriteheld 62', 'vcopy 1 0', 'vhold 0', 'vwriteheld 63', 'vdump'])
+        cases.append(['vhold 3', 'vwriteheld 62', 'vdump', 'vnull 2', 'vhold 2', 'vwriteheld 63', 'vdump', 'vtext 1 74', 'vhold 1', 'vcopy 4 1', 'vwriteheld 64', 'vdump'])
+        for _ in range(2500 if th else 450):
+            cases.append(held_history(rng, rng.choice([4, 8, 12, 18])))
+        out.append(Stream('held_reference', cases, note='`Element& e = v.toElement();` kept across other operations, then `e.type = ...`: obtained after / before the value is shared '
+                                                        '(5 block kinds x 6 sharing shapes x 15 intermediate operations), random histories; where the slot was copied after the reference '
+                                                        'was taken the spec is silent and only model = implementation is compared'))
 
         # 10. predefined entities and decimal references (spec = XML 1.0 4.6 / ASCII code points), unknown names
         cases = []
@@ -616,6 +672,39 @@ class C16(Check):
         for _ in range(2000 if th else 400):
             cases.append(['sparse %s %s' % (rng.choice('cs'), H(text()))])
         out.append(Stream('entry_points', cases, note='static Xml::parse(const char*) and Xml::parse(const String&), failure text from Error::getErrorString()'))
+        # the file based entry points: the bytes go through a scratch file under build/C16
+        cases = []
+        for tg in targets:
+            for d in good + bad[:8]:
+                for m in 'ps':
+                    cases.append(tg + ['fload %s %s' % (m, H(d))])
+            for d in bad[:6] + good[:2]:
+                cases.append(tg + ['fmiss p ' + H(d)])
+            cases.append(tg + ['fmiss s -'])
+            cases.append(tg + ['fmiss d ' + H(bad[1])])         # a directory: open succeeds, readAll fails
+            cases.append(tg + ['fmiss D -'])
+            if tg:
+                cases.append(tg + ['fsave 1'])
+                cases.append(tg + ['fsave 0'])
+                cases.append(tg + ['str', 'fsl'])
+        for _ in range(1500 if th else 300):
+            d = text()
+            if rng.random() < 0.15:
+                at = rng.randrange(len(d) + 1)
+                d = d[:at] + b'\0' + d[at:]                # a 0 byte in the file: the content is read as a C string
+            cases.append(tree_ops(rng, True, maxdepth=2) + ['fload %s %s' % (rng.choice('ps'), H(d))])
+        for _ in range(1200 if th else 250):
+            cases.append(tree_ops(rng, rng.random() < 0.85, maxdepth=rng.choice([1, 2, 3])) + ['str', 'fsave 1', 'fsl'])
+        for _ in range(300 if th else 60):
+            cases.append(tree_ops(rng, True, maxdepth=2) + ['fmiss %s %s' % (rng.choice('psdD'), H(text())), 'fsave 0'])
+        for n in ([4096, 16384, 65536, 70000] if th else [4096, 70000]):  # more than one read() / write() buffer (the extracted model overflows the OCaml stack near 300 KB)
+            body = b''.join(b'<i n="%d">v%d</i>' % (k, k) for k in range(n // 20))
+            cases.append(['fload p ' + H(b'<r>' + body + b'</r>')])
+            cases.append(['fload s ' + H(b'<r>' + body + b'</r')])
+            cases.append(['open 72', 'attr 6b ' + H(bytes(rng.choice(b'abc&<"\n') for _ in range(n // 8))), 'str', 'fsave 1', 'fsl'])
+        out.append(Stream('files', cases, note='Xml::load / Xml::Parser::load / Xml::save through a scratch file under build/C16: contents from the tables of failing and '
+                                               'succeeding texts, generated and mutated documents, an embedded 0 byte, 4 KiB..70 KiB files; a missing file and a directory (open succeeds, readAll fails) (after a parse that failed on '
+                                               'the same Parser); an unwritable path; save then load of generated trees; targets that already hold something'))
         return out
 
 
@@ -635,9 +724,16 @@ C16.level_text = (
     'decode as XML says, attribute values and text nodes are read back exactly, and parse (toString e) = e up to recorded positions for EVERY '
     'tree with well-formed names, NUL-free attribute values, distinct attribute names (HashMap keys) and non-blank non-adjacent text; (4) for EVERY '
     'history of handle operations each reference count equals the number of Variant objects pointing to the block and the copy-on-write heap refines a '
-    'value store, so an operation changes its target slot only.  The model is tied to the code by running the extracted model, the extracted '
+    'value store, so an operation changes its target slot only; with a reference obtained from toElement() and kept by the caller (ops vhold / '
+    'vwriteheld) the same holds for every history in which no such reference is used after a later copy of the Variant (at the write no other '
+    'Variant shares the block), the counts stay exact in every history, and the statement is refuted with a witness for a reference kept across a copy; '
+    '(5) the file based entry points Xml::load / Xml::Parser::load / Xml::save are parse after reading and writing after toString with the file '
+    'system as an input: for every content (1) holds of load, a missing file gives false and leaves the target untouched, save then load gives the '
+    'tree back.  The model is tied to the code by running the extracted model, the extracted '
     'spec and the ASan/UBSan build of the working tree on the same cases (parse results with positions, error line/column/message, serialised '
-    'bytes, re-parsed trees, answers of a reused Parser / non-empty target / the static wrappers, every value and every reference count after handle operations).')
+    'bytes, re-parsed trees, answers of a reused Parser / non-empty target / the static wrappers, every value and every reference count after handle operations - '
+    'also after writes through a kept reference to a shared block -, the bytes Xml::save leaves in a scratch file under build/C16, the answers of load on files written there, on a '
+    'missing file and of save on an unwritable path).')
 C16.level_note = (
     'Full for the model. Trusted/modelled: Coq kernel, extraction + OCaml driver, harness (it compares the answers of a reused Parser / non-empty '
     'target with those of fresh ones itself), table translator; sscanf("#%u") is modelled as a '
@@ -654,9 +750,21 @@ C16.level_note = (
     'Character references: only decimal ones are decoded (theorem xml_numeric_reference); a hexadecimal reference such as &#x41; stays literal '
     'text, &#55296; yields the three bytes ed a0 80 (a surrogate code point is not rejected), &#0; puts a 0 byte into the String, a value '
     '>= 1114112 decodes to nothing - all mirrored by the model, none judged by a theorem (the property text does not say). '
-    'Handles: the history alphabet fuses mutable access and write (`toElement()` followed at once by the assignment); a reference obtained from '
-    'toElement() and kept across a later copy of the Variant (`Element& e = v.toElement(); Variant w(v); e.type = ...;` changes w as well) is '
-    'outside the model - the independence theorem is about histories of complete operations. distinct attribute names are forced by HashMap. '
+    'Handles: xml_copies_independent is about histories of complete operations (`toElement()` followed at once by the assignment). A reference '
+    'obtained from toElement() and KEPT (`Element& e = v.toElement(); Variant w(v); e.type = ...;`) is now in the model and in the harness (ops vhold / '
+    'vwriteheld; protocol: the reference is dropped when an operation targets the slot it came from, so it never dangles): the write is a plain in-place '
+    'write whatever the count says, so it changes w as well - xml_copies_independent_refuted_with_held_reference proves this of the faithful model with '
+    'the witness [velem 0 a; vhold 0; vcopy 1 0; vwriteheld b] (corpus/C16/held-reference-across-copy.ops: the implementation does the same), and '
+    'xml_copies_independent_without_reference_kept_across_copy keeps the statement under the visible hypothesis ok_hist: no reference obtained from '
+    'toElement() is used after a later copy (at every write through it no other Variant shares the block). This is the known limitation of lazy copies '
+    'with handed-out references, the same design as ::Variant (C07); it does not contradict "copies of element values are independent of their source" '
+    'for any history that does not keep a reference across a copy, so it is a note, not a finding. For such histories the spec oracle is silent and only '
+    'model = implementation is compared. '
+    'File API: the file system is an input of the model (content read / path cannot be opened); File::open, readAll and write themselves are C19\'s subject; partial '
+    'writes and read errors after a successful open are not driven. After a failed open Xml::Parser::load assigns errorString only: getErrorLine() / '
+    'getErrorColumn() still show the previous failure (mirrored: xml_load_missing_file_fails_and_keeps_target; not part of the property). The content of a file is '
+    'read as a C string: bytes behind a 0 byte are ignored (as for every text). Xml::Variant::isNull / isText / isElement are cross-checked against getType() in every dump. '
+    'distinct attribute names are forced by HashMap. '
     'In-place writes of a nested content item redirect slots only (a content list of another block pointing to it is excluded by the proved '
     'count invariant). Element.line/column of elements created by toElement() are uninitialised in the code and not compared. '
     'Xml::Parser::parse(const char*, Element&) is declared but defined nowhere (not callable, not driven).')
@@ -666,13 +774,18 @@ C16.rule = (
     'comments between all tokens and next to text, all three line-break forms, processing instructions, numeric references at the UTF-8 and '
     '32/64-bit boundaries, quotes/ampersands/line breaks in values, texts whose first byte starts another token (look-ahead fails), nesting '
     'depth 1000, NUL inside the buffer, every byte string of length <= 3 (4 thorough) over a 15-letter alphabet bare and in 5 contexts, and for '
-    'handles every combination of block kind x sharing shape x write. Non-trivial: a parse that succeeds, or fails beyond line 1 column 1 on a '
+    'handles every combination of block kind x sharing shape x write, the same with a reference taken before / after the sharing and kept across 15 kinds of '
+    'intermediate operations; file cases = load of a table of failing / succeeding texts, generated and mutated documents (also with a 0 byte, also 64 KiB) written to '
+    'a scratch file, a missing file, save to a writable / unwritable path, save then load of generated trees. Non-trivial: a parse that succeeds, or fails beyond line 1 column 1 on a '
     'document of >= 8 bytes; a round trip of a tree with >= 3 nodes/attributes; a handle history that both shares (copy/assign/child/sub) and '
-    'writes (name/attr/submut/settext/child); an entity case that parses. distinct = distinct op text.')
+    'writes (name/attr/submut/settext/child/write through a kept reference); an entity case that parses; a file case whose text op line has >= 24 characters or whose tree '
+    'has >= 2 nodes/attributes. distinct = distinct op text.')
 C16.assumptions = [
     'scanf("#%u") behaves as the reference decimal scanner scan_u of XmlModel.v (validated by correspondence on 300 spellings x boundary values)',
     'Unicode::toString is the UTF-8 encoder utf8 of XmlModel.v (validated by correspondence; proved correct in C18)',
     'HashMap<String,String> iterates in insertion order and append replaces the value of an equal key (validated by correspondence)',
     'the text contains its terminator: Xml::parse is given a NUL-terminated buffer',
+    'File::open / readAll / write deliver and store exactly the bytes of the file (C19); Error::getErrorString() after a failed open is the strerror text (compared: "No such file or directory")',
+    'a reference kept from toElement() is not used after an operation that targets the slot it came from (harness protocol; otherwise it may dangle - ordinary C++ lifetime, outside the property)',
 ]
 CHECK = C16
